@@ -480,8 +480,13 @@ def f4_probe(ctx):
         outs = {}
         for which in ("dec-mutex", "dec-cond", "enc-mutex", "enc-cond"):
             rc, out, err = vlib.run_lines([exe], [which], timeout=120)
-            outs[which] = {"rc": rc, "out": out[:3], "asan": ("double-free" in err or "attempting double-free" in err), "stderr_tail": err[-400:] if rc else ""}
+            m = re.match(r"ret=(\d+) double_free=(\d+) unknown_free=(\d+) live=(\d+) T=(\S*)", out[0]) if out else None
+            outs[which] = ({"ret": int(m.group(1)), "double_free": int(m.group(2)), "unknown_free": int(m.group(3)), "live": int(m.group(4)),
+                            "trace": m.group(5)} if m else {"rc": rc, "stderr_tail": err[-400:]})
         ctx.cov["f4_probe"] = outs
+        hit = [w for w, o in outs.items() if o.get("double_free")]
+        if hit:
+            ctx.log("watch item F4 (pthread failure, outside C10's quantifier) reproduces: double free in " + ", ".join(hit) + " — see findings/F4.md")
     except Exception as ex:     # never let the watch item disturb the verdict
         ctx.cov["f4_probe"] = "probe error: %r" % (ex,)
 
